@@ -36,7 +36,9 @@ Empty == [scen |-> "", engine |-> "", srcs |-> {}, dsts |-> {}, feats |-> {},
           gens |-> <<>>, hi |-> <<>>, asked |-> {}, applied |-> {}, failedGen |-> {}, floor |-> <<>>,
           \* rank[<<p, g>>]: position of generation g in the order in which p's configurations were opened;
           \* curRank[p]: rank of the configuration opened last (the one in force once its open succeeded)
-          rank |-> <<>>, curRank |-> <<>>]
+          rank |-> <<>>, curRank |-> <<>>,
+          popens |-> <<>>,       \* processor -> number of successful opens so far
+          callOpens |-> <<>>]    \* reconfigure request -> popens of its processor when the request was made
 
 Init == l = 1 /\ st = Empty /\ viol = {}
 
@@ -120,6 +122,11 @@ Proc ==
                              \* only configurations somebody asked for, never one whose open failed
                              \cup Add(g = 1 \/ g \in st.asked, "OnlyRequestedConfig", <<Ev.proc, g>>)
                              \cup Add(rk > 0, "FailedOpenKeepsOld", <<Ev.proc, g, "never opened">>)
+                             \* a configuration whose request was answered with an error never handles a record
+                             \* (requests made one after the other: each result is about that request's own configuration)
+                             \cup (IF "reconf-sequential" \in st.feats
+                                     THEN Add(g \notin st.failedGen, "FailedOpenKeepsOld", <<Ev.proc, g, "its request had failed">>)
+                                     ELSE {})
                              \* a switch that happened before the record was read is in force for it
                              \cup Add(Len(Ev.path) > 0 \/ rk >= GetF(GetF(st.floor, Org, <<>>), Ev.proc, 0), "AppliedIsInForce",
                                       <<Ev.proc, Ev.tag, g>>)
@@ -128,13 +135,19 @@ Proc ==
 
 ReconfCall ==
   /\ IsEvent("ReconfCall")
-  /\ st' = [st EXCEPT !.asked = @ \cup {Ev.geni}]
+  /\ st' = [st EXCEPT !.asked = @ \cup {Ev.geni}, !.failedGen = @ \ {Ev.geni},
+                      !.callOpens = PutF(@, Ev.rid, GetF(st.popens, Ev.proc, 0))]
   /\ UNCHANGED viol
 
 ReconfRet ==
   /\ IsEvent("ReconfRet")
   /\ IF Ev.err.nil
-       THEN st' = [st EXCEPT !.applied = @ \cup {Ev.geni}] /\ UNCHANGED viol
+       THEN /\ st' = [st EXCEPT !.applied = @ \cup {Ev.geni}]
+            \* every caller gets the result of ITS OWN request: "applied" means that configuration was opened
+            \* (the node opens whatever configuration is stored when it takes the request up - with overlapping
+            \* requests possibly a later one - so: some new processor was opened since this request was made)
+            /\ viol' = viol \cup Add(GetF(st.popens, Ev.proc, 0) > GetF(st.callOpens, Ev.rid, 0), "AppliedIsInForce",
+                                     <<Ev.proc, Ev.geni, "reported applied but no configuration was opened for this request">>)
        ELSE /\ st' = [st EXCEPT !.failedGen = IF "sentinel" \in DOMAIN Ev.err /\ Ev.err.sentinel \in {"context.Canceled", "context.DeadlineExceeded"}
                                                 THEN @ ELSE @ \cup {Ev.geni}]
             \* the caller got an error (not a mere give-up): that configuration never handled a record
@@ -243,6 +256,7 @@ Open ==
      ELSE IF Ev.kind = "processor"
        THEN LET g == Ev.geni  r == GetF(st.curRank, Ev.conn, 0) + 1 IN
             st' = [st EXCEPT !.opens = Bump(@, Ev.key),
+                             !.popens = PutF(@, Ev.conn, GetF(@, Ev.conn, 0) + 1),
                              !.rank = IF <<Ev.conn, g>> \in DOMAIN @ THEN @ ELSE @ @@ (<<Ev.conn, g>> :> r),
                              !.curRank = IF <<Ev.conn, g>> \in DOMAIN st.rank THEN @ ELSE PutF(@, Ev.conn, r)]
             /\ UNCHANGED viol
